@@ -336,8 +336,20 @@ func (r *uciRun) verdictC04(s *vs.Sched) explore.Outcome {
 			return o
 		}
 	}
-	if s.HitHorizon && !r.guiDone {
-		o.Inconclusive = true
+	if s.HitHorizon {
+		if !r.guiDone {
+			o.Inconclusive = true
+		}
+		return o
+	}
+	// the run is over (everything is parked or finished): a go that was received must have its answer,
+	// also when the driver terminated instead of answering (the GUI of these scripts always awaits)
+	for i, w := range ws {
+		if len(w.answers) == 0 {
+			o.Violation = fmt.Sprintf("C04/unanswered-go %s go#%d '%s'", r.p.Engine, i+1, w.line)
+			o.Msg = fmt.Sprintf("'%s' (go #%d) was received but never answered by a bestmove; output closed=%v (script: %s; parked: %s)", w.line, i+1, r.outClosed, r.script(), strings.Join(s.Blocked, ","))
+			return o
+		}
 	}
 	return o
 }
